@@ -18,14 +18,16 @@ def lib_outcome(s, O=None):
     try:
         r = go()
     except Exception as e:
-        if type(e).__name__ == 'NonFiniteLift' or (O is not None and O.nonfinite_seen()):
-            return ('nonfinite', None)                          # inf/nan from a concrete sub-expression met a free digit: domain error, no claim
+        if type(e).__name__ in ('NonFiniteLift', 'ZeroDivisionError', 'OverflowError') or 'complex' in str(e) or (O is not None and O.nonfinite_seen()):
+            return ('raised', 'domain')                         # inf/nan met a free digit, division by zero, overflow: an error, but no claim about well-formed input
         if isinstance(e, (TypeError, AttributeError, NotImplementedError, IndexError)) and 'Sym' in str(e):
             raise RuntimeError('harness gap: ' + repr(e))      # a proxy reached code that cannot handle it: not a rejection
         return ('raised', type(e).__name__)
     if r is None:
         return ('none', None)
     val = r.value if hasattr(r, 'value') else r                 # an operand-less == hands back a bare bool
+    if getattr(val, 'shape', None) == () and hasattr(val, 'item'):
+        val = val.item()                                        # NumPy scalars and 0-d object arrays (np.float64 < proxy)
     if isinstance(val, complex):
         return ('nonfinite', None)                              # negative base with a fractional exponent: outside the real-valued claim
     return ('ok', val)
@@ -250,7 +252,7 @@ def _char_claims(O, s):
     if cat == 'reject':
         return [(f'ill-formed ({what}) is rejected', O.same(got[0], 'raised'))]
     if cat == 'value':
-        if got[0] == 'nonfinite':
+        if got[0] == 'nonfinite' or got == ('raised', 'domain'):
             return [('no claim: non-finite intermediate value', True)]
         want = evalchar(O, what)
         out = [('well-formed expression is accepted', O.same(got[0], 'ok'))]
